@@ -1,0 +1,67 @@
+// Copyright 2021 The Grin Developers
+//
+// Licensed under the Apache License, Version 2.0 (the "License");
+// you may not use this file except in compliance with the License.
+// You may obtain a copy of the License at
+//
+//     http://www.apache.org/licenses/LICENSE-2.0
+//
+// Unless required by applicable law or agreed to in writing, software
+// distributed under the License is distributed on an "AS IS" BASIS,
+// WITHOUT WARRANTIES OR CONDITIONS OF ANY KIND, either express or implied.
+// See the License for the specific language governing permissions and
+// limitations under the License.
+
+//! Verification hooks. Compiled only with `--cfg grin_wallet_verif`.
+//!
+//! A hook point is a named place in the code just *before* a persistent
+//! effect (LMDB batch commit, side-file write, seed-file operation) or
+//! before the wallet mutex is taken. A test harness may install a
+//! per-thread handler; with no handler installed a point does nothing.
+//!
+//! The handler decides what happens at the point:
+//!  * return `false`: continue normally
+//!  * return `true`: the call site returns its ordinary error (failing write)
+//!  * panic (e.g. with `CrashSentinel`): simulates process death at the point
+//!  * block: parks the calling thread (used to schedule lock acquisitions)
+
+use std::cell::RefCell;
+
+/// Panic payload used by harnesses to simulate a crash at a hook point
+#[derive(Debug, Clone)]
+pub struct CrashSentinel(pub String);
+
+thread_local! {
+	static HANDLER: RefCell<Option<Box<dyn FnMut(&str) -> bool>>> = RefCell::new(None);
+}
+
+/// Install a handler for the current thread, returning nothing.
+pub fn set_handler(h: Option<Box<dyn FnMut(&str) -> bool>>) {
+	HANDLER.with(|c| {
+		*c.borrow_mut() = h;
+	});
+}
+
+/// Called at a hook point. Returns true if the call site should fail with
+/// its ordinary error.
+pub fn point(name: &str) -> bool {
+	// take the handler out while it runs so a handler that panics or
+	// re-enters leaves the slot in a sane state
+	let h = HANDLER.with(|c| c.borrow_mut().take());
+	match h {
+		None => false,
+		Some(mut f) => {
+			let r = std::panic::catch_unwind(std::panic::AssertUnwindSafe(|| f(name)));
+			HANDLER.with(|c| {
+				let mut slot = c.borrow_mut();
+				if slot.is_none() {
+					*slot = Some(f);
+				}
+			});
+			match r {
+				Ok(v) => v,
+				Err(p) => std::panic::resume_unwind(p),
+			}
+		}
+	}
+}
